@@ -1208,19 +1208,23 @@ func (p *BinaryProtocol) DecodeText(val string, desc *TypeDescriptor, disallowUn
 		}
 		return p.WriteBool(v)
 	case BYTE:
-		i, err := strconv.ParseInt(val, 10, 64)
+		i, err := strconv.ParseInt(val, 10, 16)
 		if err != nil {
 			return err
 		}
+		// a byte is accepted in its signed and in its unsigned spelling, nothing beyond
+		if i < math.MinInt8 || i > math.MaxUint8 {
+			return &strconv.NumError{Func: "ParseInt", Num: val, Err: strconv.ErrRange}
+		}
 		return p.WriteByte(byte(i))
 	case I16:
-		i, err := strconv.ParseInt(val, 10, 64)
+		i, err := strconv.ParseInt(val, 10, 16)
 		if err != nil {
 			return err
 		}
 		return p.WriteI16(int16(i))
 	case I32:
-		i, err := strconv.ParseInt(val, 10, 64)
+		i, err := strconv.ParseInt(val, 10, 32)
 		if err != nil {
 			return err
 		}
